@@ -263,7 +263,9 @@ CHECKS = {
             'invariant per processed position; <= and == read the abstraction (le_reads: sub-graph; eq_reads: same nodes and '
             'same edges); flatten_all_plain: when flatten(recurse=True) returns only plain nodes are left (partial '
             'correctness of the loop over the nested levels), flatten_one_level_returns: it does return, on a well-formed graph '
-            'of plain nodes, when the nested graphs hold plain nodes only; depends_rec_reads: depends(x, y, recurse=True) always answers, with the truth, on every graph a '
+            'of plain nodes, when the nested graphs hold plain nodes only, flatten_returns: and on every well-founded nesting (nested '
+            'graphs ranked so that a graph only holds graphs of smaller rank; the same graph may stand at several levels), '
+            'within rank + 1 rounds; depends_rec_reads: depends(x, y, recurse=True) always answers, with the truth, on every graph a '
             'history can build, cycles included (invariant of the breadth-first waves + the measure that every wave that '
             'does not answer sees a new position: size + 1 waves are enough); dependencies_rec_reads: when the work-list loop of dependencies(recurse=True) returns it has collected '
             'exactly the nodes reachable in one step or more (partial correctness by a loop invariant; the model budget '
